@@ -108,16 +108,16 @@ func (s *stream) bytes() []byte {
 	return b
 }
 
-// accountableLine: one line, CRLF-terminated, no other CR / LF, no '{'. A line whose first word is "*" is left out:
-// gluon takes "*" for a tag (its atom class does not exclude the list wildcards) and answers "* OK ...", which on the
-// wire cannot be told from an untagged response (an RFC 3501 server would answer "* BAD", just as ambiguous).
+// accountableLine: one line, CRLF-terminated, no other CR / LF, no '{'. A line that starts with "*" is left out:
+// gluon takes "*" for a tag (its atom class does not exclude the list wildcards) and answers "* OK ..." / "* BAD ...",
+// which on the wire cannot be told from an untagged response.
 func accountableLine(b []byte) bool {
 	n := len(b)
 	if n < 2 || b[n-2] != '\r' || b[n-1] != '\n' {
 		return false
 	}
 
-	if bytes.HasPrefix(b, []byte("* ")) {
+	if b[0] == '*' {
 		return false
 	}
 
